@@ -2,9 +2,11 @@
 
 Proof obligations: Props/C07.v (theorems over all mapper lists / hierarchies / nesting depths of the
 model Ser/Mappers.v).
-Tie to the code: generated class hierarchies (depth <= 3, every assignment of {none, dict,
-TO_LOWERCASE, TO_CAMELCASE, list chain} per class, nested classes with their own mappers reached
-directly and through Array/Set, three field-name shapes) are realised as real typedpy classes;
+Tie to the code: Gen/MapperSites.v (nested-mapper lookup/store sites and enum dispatch, regenerated from
+the AST on every run; harness/genmods/mapper_sites.py); generated class hierarchies (depth <= 3, every
+assignment of {none, dict, TO_LOWERCASE, TO_CAMELCASE, list chain} per class, nested classes with their
+own mappers reached directly and through Array/Set, three field-name shapes) plus the enumerated
+sibling-rename and falsy-value lattices of harness/c07lattice.py are realised as real typedpy classes;
 the aggregated mapper dicts, the Serializer output and the Deserializer result are compared inside
 Coq with the model evaluated by vm_compute on the same inputs.
 Violation search: the statement's clauses (key set at every level = image under rename_chain of
@@ -936,7 +938,9 @@ def run(rep, tier):
         "field names and mapper keys are ASCII identifiers (hypothesis `ident` of the theorems; the generator's three shapes)",
         "rename-only fragment: mapper values are str / DoNotSerialize / nested dict; FunctionCall, Constant, "
         "mappers.CONFIGURATION and structures inside Map values are outside the claim",
-        "value-level serialization is abstracted as identity on scalars (Integer fields) and structural on nested documents",
+        "value-level serialization is abstracted as identity on scalars (opaque tokens: Integer fields; String/Boolean/Float "
+        "fields in the falsy lattice) and structural on nested documents; the model has no field types",
+        "collections compare order-free (serialized Sets have no order; the order of an Array is not a matter of this property)",
         "single inheritance chains; `_deserialization_mapper` is not declared (the serialization mapper serves both directions)",
         "undefined extra attributes created by deserialization are outside the model (the real == sees them)",
     ]
@@ -1136,8 +1140,15 @@ def run(rep, tier):
         from harness.props.c17 import broken_build
         broken_build(rep)
     return rep.finish(
-        rule="cases = single-inheritance hierarchies of depth 1..3 under EVERY assignment of {none, dict, TO_LOWERCASE, "
-             "TO_CAMELCASE, list chain} per class (155 assignments, each several times with fresh fields/dicts/nesting), "
-             "nested classes with own mappers reached directly / through Array / through Set up to two levels down, "
-             "field names of three shapes, optional explicit mapper, camel_case_convert off and on; "
-             "distinct = (assignment, nesting kinds, explicit mapper?) ; wrappers = valid mapper / one non-field key")
+        rule="stream mappers: single-inheritance hierarchies of depth 1..3 under EVERY assignment of {none, dict, TO_LOWERCASE, "
+             "TO_CAMELCASE, list chain} per class (155 assignments, each several times with fresh fields/dicts/nesting; dicts "
+             "include shifts/cycles over sibling names), nested classes with own mappers reached directly / through Array / "
+             "through Set up to two levels down, field names of three shapes, optional explicit mapper, falsy values; "
+             "stream sibling-lattice: classes with fields a,b(,c) of every kind combination x EVERY collision-free rename onto "
+             "{own name, sibling names, fresh key} x placement {own mapper, subclass mapper, explicit mapper, [dict, TO_CAMELCASE], "
+             "[TO_LOWERCASE, dict], split over base/subclass} with pairwise different per-class mappers on the nested classes "
+             "(2 fields: full product; 3 fields: sample) and optional '<x>._mapper' entries; stream falsy-lattice: the same shapes "
+             "with every value falsy (0, '', False, 0.0, empty nested structure, empty Array/Set); every case with "
+             "camel_case_convert off and on, through Serializer/Deserializer or serialize()/deserialize_structure(), on a fresh "
+             "class or after the class was served under another mapper; distinct = (kinds, renames, assignment, explicit mapper?); "
+             "wrappers = valid mapper / one non-field key")
